@@ -132,7 +132,7 @@ def h_qr(env):
             env.check('decode(encode(m))', G.decode(M, Z) == msg)
         except ValueError:
             env.check('encode_may_fail_only_with_small_gap', gap < 128 or p < 256)
-    for bad in [v for v in range(1, p) if v not in members][:2]:
+    for bad in [0] + [v for v in range(1, p) if v not in members]:          # every non-member of the field (squares outside the subgroup included)
         try:
             G(bad)
             env.check('non_member_rejected', False)
